@@ -15,8 +15,8 @@ ASSUMPTIONS = ["the comparison is against the library's own computation on a fre
 NSHARDS = {"quick": 32, "thorough": 64}
 BUDGET_S = {"quick": 200, "thorough": 2400}
 MIN_HITS = {
-    'quick': {"history": 13029, "sighash_step": 9899, "probe": 143262, "mut_after_fill": 3681, "slots_nonempty": 14135, "op_set_input": 8607, "op_set_output": 5176, "long_history": 48},
-    'thorough': {"history": 367608, "sighash_step": 1038509, "probe": 7707805, "mut_after_fill": 167301, "op_set_input": 664443, "op_set_output": 498246, "long_history": 5760},
+    'quick': {"history": 13029, "sighash_step": 9899, "probe": 238770, "mut_after_fill": 3681, "slots_nonempty": 14135, "op_set_input": 8607, "op_set_output": 5176, "long_history": 48},
+    'thorough': {"history": 478308, "sighash_step": 1036683, "probe": 8997147, "mut_after_fill": 204552, "op_set_input": 837109, "op_set_output": 503130, "long_history": 5760},
 }
 
 ALPHABET = [
@@ -40,6 +40,8 @@ PROBES = [
     {"op": "sighash", "flag": 0x41, "idx": 0, "script": "76a9", "value": 1234567},
     {"op": "sighash", "flag": 0xC1, "idx": 1, "script": "ac", "value": 0},
     {"op": "sighash", "flag": 0x42, "idx": 1, "script": "", "value": 2**64 - 1},
+    {"op": "sighash", "flag": 0x01, "idx": 0, "script": "", "value": 5},
+    {"op": "sighash", "flag": 0x83, "idx": 1, "script": "", "value": 0},
 ]
 
 
